@@ -184,6 +184,10 @@ impl Scenario for C10Faults {
         cfg.assigns = (1, 12);
         cfg.comments = false;
         cfg.odd_governors = w.chance(1, 3);
+        // classes, objects, parameterized templates (tagged and untagged, with type and value
+        // parameters) and their instances; members inherited with COMPONENTS OF
+        cfg.classes = w.chance(1, 2);
+        cfg.components_of = w.chance(1, 3);
         let set = gen::generate(&mut w, &cfg);
         let backend = BackendSel::random(&mut w);
         let mut f = root.fork("faults");
@@ -449,7 +453,11 @@ impl Scenario for C10Faults {
                     continue; // attribution unknown for this definition
                 }
                 let is_faulted = faulted.contains(&(mi, orig.clone()));
-                let represented = if is_faulted { items.iter().any(|i| blk1.contains(i)) } else { items.iter().all(|i| blk1.contains(i)) };
+                // a dependent of a REPLACED definition legitimately changes shape (the members it
+                // inherits with COMPONENTS OF, the inner types derived from them): it is represented
+                // when any of its items is still there; everything else must be there completely
+                let reshaped = is_faulted || affected.contains(&(mi, orig.clone()));
+                let represented = if reshaped { items.iter().any(|i| blk1.contains(i)) } else { items.iter().all(|i| blk1.contains(i)) };
                 if !represented {
                     lost.push((mi, a.name.clone()));
                 }
